@@ -321,6 +321,13 @@ def run_C04(rng, tier, deep):
         c["bg"] = float(rng.normal())
         c["par"] = dict(q2=random_source(rng, ny, nx, rng.choice(["signed", "sparse", "random", "dipole"])),
                         a=float(rng.normal() * 3), b=float(rng.normal() * 3), bg2=float(rng.normal() * 5))
+        if rng.random() < 0.2:
+            # an EXACTLY cancelling combination (q2 = -q1 / 2, a = 1, b = 2; exact in binary): the combined source is identically zero
+            # while the two solves just before had structured sources - its fields must be the background and nothing else
+            c["par"].update(q2=-0.5 * np.asarray(c["q"], dtype=float), a=1.0, b=2.0)
+        elif rng.random() < 0.1:
+            # ... or cancelling everywhere except the mean (a uniform remainder)
+            c["par"].update(q2=-0.5 * np.asarray(c["q"], dtype=float) + 0.25, a=1.0, b=2.0)
         run_oracle(st, o_linearity, c)
         if rng.random() < 0.7:
             if c["footprint"] and rng.random() < 0.5:
@@ -467,6 +474,33 @@ def o_conservation(case):
         s = float(np.sum(f[1][k]))
         if not abs(s - 1.0) <= max(tol, 1e-10):
             return fail("C03/unit-sum", "footprint weights over the periodic domain do not sum to one", None, 1.0, s, tol)
+    if (case.get("par") or {}).get("cached"):
+        # the same identities for footprints served through a result cache: first solve, repeats on the same cache object, a re-opened one -
+        # with the returned arrays post-processed in place by the caller in between, as a caller may
+        import tempfile
+        import shutil
+        import bldfm.cache as cmod
+        ny, nx = q.shape
+        d_ = tempfile.mkdtemp(prefix="c03c-", dir=os.getcwd())
+        try:
+            cache = cmod.GreensFunctionCache(d_)
+            for rep in range(4):
+                if rep == 3:
+                    cache = cmod.GreensFunctionCache(d_)
+                ff = solve3(dict(base, footprint=True), cache=cache)
+                for k, l in enumerate(lv):
+                    R = (float(z[l] - z[0]) / float(Kz[-1])) if base["analytic"] else resist(z, Kz, l)
+                    s = float(np.sum(ff[1][k]))
+                    if not abs(s - 1.0) <= max(tol, 1e-10):
+                        return fail("C03/unit-sum/cached", "footprint weights served through a cache (call %d) do not sum to one" % (rep + 1), None, 1.0, s, tol)
+                    mc = float(np.mean(ff[0][k]))
+                    exp = bg - R / (nx * ny)
+                    sc = max(abs(bg), abs(R / (nx * ny)), float(np.max(np.abs(ff[0][k]))), 1e-300)
+                    if not abs(mc - exp) / sc <= max(tol, 1e-10):
+                        return fail("C03/mean-conc/cached", "mean concentration Green's function served through a cache (call %d) differs from bg - resistance / cells" % (rep + 1),
+                                    None, exp, mc, tol)
+        finally:
+            shutil.rmtree(d_, ignore_errors=True)
     return None
 
 
@@ -517,6 +551,10 @@ def run_C03(rng, tier, deep):
     correspond([random_case(rng, halo=0.0 if i % 3 == 0 else random_case(rng)["halo"]) for i in range(budget(tier, deep, 24, 200))], st)
     for _ in range(budget(tier, deep, 30, 400)):
         c = random_case(rng)
+        if rng.random() < 0.3:
+            c["par"] = dict(c.get("par") or {}, cached=True)
+            if c["bg"] == 0.0:
+                c["bg"] = float(rng.choice([2.5, -1.25, 400.0]))
         run_oracle(st, o_conservation, c)
         c2 = random_case(rng)
         im, jm, pt = ongrid_point(rng, c2)
@@ -616,6 +654,25 @@ def o_closed_form(case):
         e = relerr(got, exp, scale=f0)
         if not e <= tol:
             return fail("C05/closed-form/%s" % name, "analytic mode differs from the closed-form half-space solution", None, "equal", e, tol)
+    if (case.get("par") or {}).get("cached") and base["footprint"]:
+        # the closed form also for footprints served through a result cache: first solve, two repeats on the same cache object, a re-opened one
+        import tempfile
+        import shutil
+        import bldfm.cache as cmod
+        d_ = tempfile.mkdtemp(prefix="c05c-", dir=os.getcwd())
+        try:
+            cache = cmod.GreensFunctionCache(d_)
+            for rep in range(4):
+                if rep == 3:
+                    cache = cmod.GreensFunctionCache(d_)
+                b_ = solve3(base, cache=cache)
+                for name, got, exp, f0 in (("conc", b_[0], p, max(fl[0], abs(base.get("bg", 0.0)))), ("flx", b_[1], q, fl[1])):
+                    e = relerr(got, exp, scale=f0)
+                    if not e <= tol:
+                        return fail("C05/closed-form/cached/%s" % name, "analytic footprint served through a cache (call %d) differs from the closed form" % (rep + 1),
+                                    None, "equal", e, tol)
+        finally:
+            shutil.rmtree(d_, ignore_errors=True)
     return None
 
 
@@ -732,6 +789,10 @@ def run_C05(rng, tier, deep):
         if rng.random() < 0.25:
             # very high levels / very fine grids: the decay factor of the short waves underflows
             stretch_for_decay(c, float(rng.choice([400.0, 800.0, 2000.0, 1e4])))
+        if c["footprint"] and rng.random() < 0.4:
+            c["par"] = dict(c.get("par") or {}, cached=True)
+            if c["bg"] == 0.0:
+                c["bg"] = float(rng.choice([2.5, -1.25, 400.0]))
         run_oracle(st, o_closed_form, c)
     for _ in range(budget(tier, deep, 8, 60)):
         run_oracle(st, o_third_order, resolved_uniform_case(rng))
@@ -1093,6 +1154,45 @@ def o_levels(case):
     return None
 
 
+@oracle
+def o_levels_interface(case):
+    """the same clause through the configuration-driven interface: `domain.output_levels` = any list of nodes (a permutation of ALL nodes, a
+    descending list, repeats, a single level) - slice k of the single run is the single-level run for the k-th requested node, with its height"""
+    from bldfm.config_parser import parse_config_dict
+    from bldfm.interface import run_bldfm_single
+    nz = case["nz"]
+    lv = [int(x) for x in case["levels"]]
+
+    def cfg_for(levels):
+        return parse_config_dict(dict(
+            domain=dict(nx=8, ny=6, xmax=80.0, ymax=60.0, nz=nz, modes=[8, 6], halo=10.0, output_levels=levels),
+            towers=[dict(name="T", lat=0.0, lon=0.0, x=30.0, y=20.0, z_m=4.0)],
+            met=dict(ustar=0.35, mol=-80.0, wind_speed=3.0, wind_dir=250.0),
+            solver=dict(closure="MOST", footprint=bool(case["footprint"]), precision="double")))
+    cfg = cfg_for(lv)
+    r = run_bldfm_single(cfg, cfg.towers[0])
+    conc, flx = np.asarray(r["conc"], dtype=float), np.asarray(r["flx"], dtype=float)
+    Z = np.asarray(r["grid"][2], dtype=float)
+    if conc.ndim == 2:
+        conc, flx, Z = conc[None], flx[None], Z[None] if Z.ndim == 2 else Z.reshape(1, *conc.shape[-2:])
+    if conc.shape[0] != len(lv):
+        return fail("C10/interface/count", "a single run with output_levels %s returns %d slices" % (lv, conc.shape[0]), None, len(lv), int(conc.shape[0]), 0)
+    for k, l in enumerate(lv):
+        c1 = cfg_for([l])
+        r1 = run_bldfm_single(c1, c1.towers[0])
+        one_c, one_f = np.asarray(r1["conc"], dtype=float), np.asarray(r1["flx"], dtype=float)
+        z1 = float(np.asarray(r1["grid"][2], dtype=float).ravel()[0])
+        if not np.all(Z[k] == z1):
+            return fail("C10/interface/height", "slice %d of a single run with output_levels %s reports height %r, level %d lies at %r" % (k, lv, float(np.ravel(Z[k])[0]), l, z1),
+                        None, z1, float(np.ravel(Z[k])[0]), 0)
+        for name, got, exp in (("conc", conc[k], one_c), ("flx", flx[k], one_f)):
+            sc = max(float(np.max(np.abs(exp))), 1e-300)
+            e = float(np.max(np.abs(got - exp.reshape(got.shape)))) / sc
+            if not e <= 1e-12:
+                return fail("C10/interface/%s" % name, "slice %d of a single run with output_levels %s is not the single-level run for level %d" % (k, lv, l), None, "equal", e, 1e-12)
+    return None
+
+
 def run_C10(rng, tier, deep):
     st = new_stats()
     cases = []
@@ -1126,7 +1226,20 @@ def run_C10(rng, tier, deep):
         c["par"] = dict(form=str(rng.choice(forms)), full=bool(rng.random() < 0.3), cont=str(rng.choice(["tuple", "list", "array"])))
         st["branches"]["levels=%s" % kind] = st["branches"].get("levels=%s" % kind, 0) + 1
         run_oracle(st, o_levels, c)
-    return finish(st, "level selections ascending / descending / shuffled / repeated / with top node / scalar / full column, given as list, list of numpy integers, int64 / int32 / uint8 ndarray, Python int, numpy integer "
+    for k in range(budget(tier, deep, 4, 16)):
+        nz = int(rng.integers(4, 8))
+        kind = ["full-perm", "full-desc", "partial", "rep"][k % 4]
+        if kind == "full-perm":
+            lv = [int(x) for x in rng.permutation(nz + 1)]
+        elif kind == "full-desc":
+            lv = list(range(nz, -1, -1))
+        elif kind == "partial":
+            lv = [int(x) for x in rng.permutation(nz + 1)[: int(rng.integers(1, nz))]]
+        else:
+            lv = [int(x) for x in rng.integers(0, nz + 1, size=3)]
+        run_oracle(st, o_levels_interface, dict(nz=nz, levels=lv, footprint=bool(rng.random() < 0.5)))
+    return finish(st, "the same through run_bldfm_single with domain.output_levels (permutations of the full column, descending, partial, repeated); "
+                  "level selections ascending / descending / shuffled / repeated / with top node / scalar / full column, given as list, list of numpy integers, int64 / int32 / uint8 ndarray, Python int, numpy integer "
                   "scalar or 0-d array; domain / modes / measurement point as tuple, list or ndarray; numeric and analytic, both modes and precisions; oracle: each slice vs the single-level request and the full-column request, "
                   "height label exact", deep, TOL)
 
@@ -1339,6 +1452,16 @@ def o_convergence(par):
         prof = tuple(f(z) for f in fns)
         case = dict(q=q, z=z, profiles=prof, domain=(xmx, ymx), levels=[lout, n, 0], modes=(nx, ny), meas_pt=(0.0, 0.0),
                     bg=0.0, footprint=False, analytic=False, halo=0.0, precision="double")
+        if par.get("prelude"):
+            # an earlier solve on the same grid whose source has EXACT spectral zeros (a crosswind-uniform strip, a single harmonic, nothing at
+            # all): whatever it leaves behind per grid must not reach the next solve
+            jj, ii = np.meshgrid(np.arange(ny), np.arange(nx), indexing="ij")
+            pre = dict(strip=np.tile((np.arange(nx) % 3 == 0).astype(float), (ny, 1)), zero=np.zeros((ny, nx)),
+                       harmonic=np.cos(2 * np.pi * ii / nx) + 0.0 * jj)[par["prelude"]]
+            try:
+                solve3(dict(case, q=pre))
+            except Exception:  # noqa: BLE001
+                pass
         conc, flx, Z = solve3(case)
         Fq = np.fft.fft2(q)
         Wq = np.fft.fft2(flx, axes=(1, 2)) / Fq
@@ -1404,7 +1527,8 @@ def conv_par(rng):
                 pw=float(rng.uniform(0.1, 0.4)), pk=float(rng.uniform(0.5, 1.2)), nx=nx, ny=ny,
                 domain=[xmx, float(xmx * rng.uniform(0.6, 1.5))], qseed=int(rng.integers(1 << 30)),
                 n0=int(rng.choice([8, 12, 16])), gamma=float(rng.choice([1.0, 1.5, 2.0])), out_frac=float(rng.choice([0.25, 0.5, 0.75])),
-                veer=float(rng.choice([0.0, 1.0]) * rng.uniform(-1.0, 1.0)))
+                veer=float(rng.choice([0.0, 1.0]) * rng.uniform(-1.0, 1.0)),
+                prelude=[None, None, "strip", "zero", "harmonic"][int(rng.integers(5))])
 
 
 def conv_par_geom(rng, n0):
